@@ -514,6 +514,11 @@ func (x *c11Run) roundTrip(a *Node) (*Node, *c11Taint, *c11Genesis) {
 	// the live node's own export must be the one a fresh check state produces
 	if live := a.Export(); c11J(c11Sections(&live)) != c11J(c11Sections(&g.State)) {
 		d := c11DiffSections(c11Sections(&live), c11Sections(&g.State))
+		if x.verbose {
+			lj, _ := json.Marshal(live.Validators)
+			fj, _ := json.Marshal(g.State.Validators)
+			fmt.Printf("live validators:  %s\nfresh validators: %s\n", lj, fj)
+		}
 		x.fail("c11-section:live-vs-fresh", fmt.Sprintf("export of the running node differs from the export of a fresh check state at height %d: %+v", a.Height, d))
 	}
 	if s, why := c11RecalcSensitive(&g.State); s {
@@ -863,12 +868,34 @@ func (x *c11Run) history(s uint64, idx int) {
 			return
 		}
 		x.observe(w, blk, res)
+		if a.EmptyValset {
+			x.dist["prefix-ends-with-empty-validator-set"]++
+			return
+		}
 	}
 	b, t, g := x.roundTrip(a)
 	if b == nil {
 		return
 	}
 	defer b.Cleanup()
+	// completeness of the export against the history itself: every accepted Lock that is still pending at the
+	// cut must be among the exported frozen funds (a round trip agrees with itself when Export drops something)
+	for _, l := range w.Locks {
+		if l.Due <= uint64(cut) {
+			continue
+		}
+		found := false
+		for _, f := range g.State.FrozenFunds {
+			if f.Height == l.Due && f.Address == l.Addr && f.Coin == uint64(l.Coin) && f.Value == l.Value.String() && f.CandidateKey == nil {
+				found = true
+				break
+			}
+		}
+		if !found {
+			x.fail("c11-export-incomplete:frozen_funds", fmt.Sprintf("a Lock of %s of coin %d by %s until block %d was accepted before the cut at %d, but the export has no such frozen fund", l.Value, l.Coin, l.Addr.String(), l.Due, cut))
+			break
+		}
+	}
 	kind := []string{"after-update-block", "mid-period", "before-update-block", "after-period-start"}[cutKind]
 	x.dist["cut:"+kind]++
 	switch {
@@ -902,7 +929,7 @@ func (x *c11Run) history(s uint64, idx int) {
 		if ra != nil {
 			x.observe(w, blk, ra)
 		}
-		if !ok {
+		if !ok || a.EmptyValset || b.EmptyValset {
 			break
 		}
 	}
